@@ -136,8 +136,21 @@ class Ctx {
     ++executions;
   }
 
+  bool replaying = false;  // follow a recorded choice string exactly (bounds do not apply)
+
   int Choose(char kind, int n) {
     if (n <= 1) return 0;
+    if (replaying) {
+      // the recording contains only the questions that were actually asked (bounds may have suppressed others):
+      // a question whose kind is not the next recorded one was not asked then, and takes the default
+      if (pos < stack.size() && stack[pos].kind == kind) {
+        int c = stack[pos].chosen;
+        ++pos;
+        return c < n ? c : 0;
+      }
+      if (kind == 'k') nondeterminism = true;  // picks are always recorded
+      return 0;
+    }
     if (random_mode) {
       int c;
       if (kind == 'p') c = static_cast<int>(rng.below(1000)) < random_preempt_permille ? 1 : 0;
@@ -472,6 +485,7 @@ class Explorer {
     ctx.stack.clear();
     if (opt.has_replay) {
       ctx.random_mode = false;
+      ctx.replaying = true;
       ctx.preempt_bound = 1 << 30;
       ctx.weak_bound = 1 << 30;
       ctx.LoadChoices(opt.replay_choices);
